@@ -226,4 +226,108 @@ theorem reads_stack (fuel : Nat) {vs : List (Val R)} {b : Bits} {r : List R} (hl
   have h' : Reads (De.stackList view ord fuel (Int.toNat (vs.length : Int))) b r vs := by simpa using h
   exact Reads.cast (Reads.bind (reads_loadUint (by decide) (uintOk_nat hl)) h') rfl (by simp)
 
+
+/-! ### the parser inverts the schema relation
+
+Mutual structural recursion over the derivation.  Each case takes the fuel bounds of its sub-derivations and
+adds one unit for its own call, exactly as the model's parser spends one unit per nested call. -/
+
+mutual
+theorem de_val : ∀ {v : Val R} {b : Bits} {r : List R}, IsValue view ord v b r → From (De.val view ord) b r v
+  | _, _, _, .null => From.succ 0 fun f _ => reads_val_null f
+  | _, _, _, .tinyint v hv => From.succ 0 fun f _ => reads_val_tinyint f v hv
+  | _, _, _, .int257 v _ hv => From.succ 0 fun f _ => reads_val_int257 f v hv
+  | _, _, _, .cell c => From.succ 0 fun f _ => reads_val_cell f c
+  | _, _, _, .slice hs => From.succ 0 fun f _ => reads_val_slice f hs
+  | _, _, _, .builder c hc hv => by
+    have := From.succ (p := De.val view ord) 0 fun f _ => reads_val_builder (view := view) f c hc
+    rw [hv] at this; exact this
+  | _, _, _, .cont hk => by
+    obtain ⟨n, hn⟩ := de_cont hk
+    obtain ⟨i, hi, rest, hb⟩ := isCont_tag hk
+    exact From.succ n fun f hf => reads_val_cont f i hi rest hb (hn f hf)
+  | _, _, _, .tuple hl ht => by
+    obtain ⟨n, hn⟩ := de_tuple ht
+    exact From.succ n fun f hf => reads_val_tuple f hl (hn f hf)
+theorem de_tuple : ∀ {n : Nat} {vs : List (Val R)} {b : Bits} {r : List R}, IsTuple view ord n vs b r →
+    From (fun f => De.tuple view ord f n) b r vs
+  | _, _, _, _, .nil => From.succ 0 fun f _ => reads_tuple_nil f
+  | _, _, _, _, .tcons c hhd hv => by
+    obtain ⟨n1, h1⟩ := de_tupleRef hhd
+    obtain ⟨n2, h2⟩ := de_val hv
+    exact From.succ (n1 + n2) fun f hf => reads_tuple_tcons f _ c (h1 f (by omega)) (h2 f (by omega))
+theorem de_tupleRef : ∀ {n : Nat} {vs : List (Val R)} {b : Bits} {r : List R}, IsTupleRef view ord n vs b r →
+    From (fun f => De.tupleRef view ord f n) b r vs
+  | _, _, _, _, .nil => From.succ 0 fun f _ => reads_tupleRef_nil f
+  | _, _, _, _, .single c hv => by
+    obtain ⟨n1, h1⟩ := de_val hv
+    exact From.succ n1 fun f hf => reads_tupleRef_single f c (h1 f hf)
+  | _, _, _, _, .any c ht => by
+    obtain ⟨n1, h1⟩ := de_tuple ht
+    exact From.succ n1 fun f hf => reads_tupleRef_any f _ c (h1 f hf)
+theorem de_stackList : ∀ {n : Nat} {vs : List (Val R)} {b : Bits} {r : List R}, IsStackList view ord n vs b r →
+    From (fun f => De.stackList view ord f n) b r vs
+  | _, _, _, _, .nil => From.succ 0 fun f _ => reads_stackList_nil f
+  | _, _, _, _, .cons c hrest hv => by
+    obtain ⟨n1, h1⟩ := de_stackList hrest
+    obtain ⟨n2, h2⟩ := de_val hv
+    exact From.succ (n1 + n2) fun f hf => reads_stackList_cons f _ c (h1 f (by omega)) (h2 f (by omega))
+theorem de_cont : ∀ {k : Cont R} {b : Bits} {r : List R}, IsCont view ord k b r → From (De.cont view ord) b r k
+  | _, _, _, .std hcd hcs => by
+    obtain ⟨n1, h1⟩ := de_ctl hcd
+    exact From.succ n1 fun f hf => reads_cont_std f (h1 f hf) hcs
+  | _, _, _, .envelope c hcd hn => by
+    obtain ⟨n1, h1⟩ := de_ctl hcd
+    obtain ⟨n2, h2⟩ := de_cont hn
+    exact From.succ (n1 + n2) fun f hf => reads_cont_envelope f c (h1 f (by omega)) (h2 f (by omega))
+  | _, _, _, .quit code h => From.succ 0 fun f _ => reads_cont_quit f code h
+  | _, _, _, .quitExc => From.succ 0 fun f _ => reads_cont_quitExc f
+  | _, _, _, .repeat_ count cb ca hc hb ha => by
+    obtain ⟨n1, h1⟩ := de_cont hb
+    obtain ⟨n2, h2⟩ := de_cont ha
+    exact From.succ (n1 + n2) fun f hf => reads_cont_repeat f count cb ca hc (h1 f (by omega)) (h2 f (by omega))
+  | _, _, _, .until_ cb ca hb ha => by
+    obtain ⟨n1, h1⟩ := de_cont hb
+    obtain ⟨n2, h2⟩ := de_cont ha
+    exact From.succ (n1 + n2) fun f hf => reads_cont_until f cb ca (h1 f (by omega)) (h2 f (by omega))
+  | _, _, _, .again cb hb => by
+    obtain ⟨n1, h1⟩ := de_cont hb
+    exact From.succ n1 fun f hf => reads_cont_again f cb (h1 f hf)
+  | _, _, _, .whileCond cc cb ca hc hb ha => by
+    obtain ⟨n0, h0⟩ := de_cont hc
+    obtain ⟨n1, h1⟩ := de_cont hb
+    obtain ⟨n2, h2⟩ := de_cont ha
+    exact From.succ (n0 + n1 + n2) fun f hf =>
+      reads_cont_whileCond f cc cb ca (h0 f (by omega)) (h1 f (by omega)) (h2 f (by omega))
+  | _, _, _, .whileBody cc cb ca hc hb ha => by
+    obtain ⟨n0, h0⟩ := de_cont hc
+    obtain ⟨n1, h1⟩ := de_cont hb
+    obtain ⟨n2, h2⟩ := de_cont ha
+    exact From.succ (n0 + n1 + n2) fun f hf =>
+      reads_cont_whileBody f cc cb ca (h0 f (by omega)) (h1 f (by omega)) (h2 f (by omega))
+  | _, _, _, .pushint value c hv hn => by
+    obtain ⟨n1, h1⟩ := de_cont hn
+    exact From.succ n1 fun f hf => reads_cont_pushint f value c hv (h1 f hf)
+theorem de_ctl : ∀ {cd : Ctl R} {b : Bits} {r : List R}, IsCtl view ord cd b r → From (De.ctl view ord) b r cd
+  | _, _, _, .noStack hn hc => From.succ 0 fun f _ => reads_ctl_noStack f hn hc
+  | _, _, _, .withStack hn hc hl hst => by
+    obtain ⟨n1, h1⟩ := de_stackList hst
+    exact From.succ n1 fun f hf => reads_ctl_withStack f hn hc hl (h1 f hf)
+end
+
+
+theorem de_stack {vs : List (Val R)} {b : Bits} {r : List R} (h : IsStack view ord vs b r) :
+    From (De.stack view ord) b r vs := by
+  obtain ⟨hl, hs⟩ := h
+  obtain ⟨n, hn⟩ := de_stackList hs
+  exact ⟨n, fun f hf => reads_stack f hl (hn f hf)⟩
+
+/-- whole-cell form: a cell whose content is a schema encoding of `vs` is parsed to `vs` with nothing left over -/
+theorem de_stack_cell {vs : List (Val R)} {c : R} (h : IsStack view ord vs (view c).1 (view c).2) :
+    ∃ n, ∀ fuel, n ≤ fuel → De.stack view ord fuel ⟨(view c).1, (view c).2⟩ = (⟨[], []⟩, some vs) := by
+  obtain ⟨n, hn⟩ := de_stack h
+  refine ⟨n, fun f hf => ?_⟩
+  have := hn f hf [] []
+  simpa using this
+
 end TonVerif.Proofs.Vm
